@@ -95,6 +95,10 @@ Inductive case :=
   (* evaluate(..., fit_params=fp): None = no / empty fit_params, Some k = {"boost": k} *)
   | CEvalP (fp : option Z) (sp : splitter) (off : Z) (ys : list Q) (xs : option (list Q))
            (st : strategy) (m : mspec) (f : fcspec)
+           (o : option (list impl_row * option (list (call Q))))
+  (* the same on an integer index with gaps: position p has the time label off + stride * p *)
+  | CEvalS (stride : Z) (fp : option Z) (sp : splitter) (off : Z) (ys : list Q)
+           (xs : option (list Q)) (st : strategy) (m : mspec) (f : fcspec)
            (o : option (list impl_row * option (list (call Q)))).
 
 Definition zlist_eqb (a b : list Z) : bool :=
@@ -145,6 +149,13 @@ Definition model_eval_fp (fp : option Z) (sp : splitter) (off : Z) (ys : list Q)
               (match xs with Some l => Some (series l) | None => None end)
               (respond_of f) (cutoff_of f) (metric_of m) fp sp st.
 
+Definition model_eval_s (stride : Z) (fp : option Z) (sp : splitter) (off : Z) (ys : list Q)
+           (xs : option (list Q)) (st : strategy) (m : mspec) (f : fcspec)
+  : res (list row * list (call Q)) :=
+  evaluate_fp Q (fun p => p * stride + off) (series ys)
+              (match xs with Some l => Some (series l) | None => None end)
+              (respond_of f) (cutoff_of f) (metric_of m) fp sp st.
+
 Definition agree (m : res (list row * list (call Q)))
            (o : option (list impl_row * option (list (call Q)))) : bool :=
   match m, o with
@@ -159,6 +170,7 @@ Definition check (c : case) : bool :=
   match c with
   | CEval sp off ys xs st m f o => agree (model_eval sp off ys xs st m f) o
   | CEvalP fp sp off ys xs st m f o => agree (model_eval_fp fp sp off ys xs st m f) o
+  | CEvalS stride fp sp off ys xs st m f o => agree (model_eval_s stride fp sp off ys xs st m f) o
   end.
 
 Fixpoint mism (cs : list (Z * case)) : list Z :=
